@@ -125,6 +125,50 @@ def binder_kinds(F):
     return out
 
 
+def _clause_stmts(T, start):
+    """The statements executed for the case label at T.items[start], in order, up to the break / return that ends the
+    clause; a clause that falls through into the next labels runs on into their statements, and the braces of a
+    `case K: { .. break; }` block are looked through."""
+    out = []
+    for labels, s_ in T.items[start:]:
+        parts = s_.get("s", []) if s_.get("k") == "block" else [s_]
+        for x in parts:
+            out.append(x)
+            if isinstance(x, dict) and x.get("k") in ("break", "return"):
+                return out
+    return out
+
+
+def _specialise(n, subject, kind, arity):
+    """A copy of the statements of one kind's clause with what is known there folded in: `<subject>.get_size()` is the arity
+    of the kind, `<subject>.get_kind()` is the kind, integer arithmetic on literals is evaluated - so that
+    `expr[expr.get_size() - 1]` in a clause shared by several kinds reads as `expr[1]` / `expr[2]`."""
+    import copy
+    if isinstance(n, list):
+        return [_specialise(x, subject, kind, arity) for x in n]
+    if not isinstance(n, dict):
+        return n
+    if n.get("k") == "call" and n.get("name") in ("get_size", "get_kind") and not n.get("args"):
+        r = n.get("recv")
+        while isinstance(r, dict) and r.get("k") in ("cast", "paren"):
+            r = r.get("e")
+        if isinstance(r, dict) and r.get("k") == "ref" and r.get("name") == subject:
+            if n["name"] == "get_size":
+                return {"k": "int", "v": arity, "l": n.get("l")}
+            return {"k": "ref", "dk": "enumerator", "name": kind, "l": n.get("l"), "t": "UTAP::Constants::kind_t"}
+    out = {k: (_specialise(v, subject, kind, arity) if isinstance(v, (dict, list)) else v) for k, v in n.items()}
+    if out.get("k") in ("cast", "paren") and isinstance(out.get("e"), dict) and out["e"].get("k") == "int":
+        return out["e"]
+    if out.get("k") == "construct" and len(out.get("args", [])) == 1 and isinstance(out["args"][0], dict) and \
+            out["args"][0].get("k") == "int":
+        return out["args"][0]
+    if out.get("k") == "bin" and out.get("op") in ("-", "+") and isinstance(out.get("lhs"), dict) and \
+            isinstance(out.get("rhs"), dict) and out["lhs"].get("k") == "int" and out["rhs"].get("k") == "int":
+        v = out["lhs"]["v"] - out["rhs"]["v"] if out["op"] == "-" else out["lhs"]["v"] + out["rhs"]["v"]
+        return {"k": "int", "v": v, "l": out.get("l")}
+    return out
+
+
 def quantifier_bodies(chk, F, rid):
     """checkExpression: every binder form (static and dynamic quantifiers, sums) reports an error when its body - the
     last child - writes."""
@@ -150,13 +194,11 @@ def quantifier_bodies(chk, F, rid):
                    (kind, kinds[kind], "forall (p : T) " if "DYNAMIC" in kind else kind.lower() + " (i : int[0,1]) "),
                    "%s:%s" % (fn["file"], fn["line"]))
             continue
-        stmts = []
-        for labels, s in T.items[idx[0]:]:
-            stmts.append(s)
-            if s.get("k") == "break":
-                break
-        pseudo = {"q": fn["q"], "file": fn["file"], "line": fn["line"], "body": {"k": "block", "s": stmts}}
-        al = G.collect_aliases(fn)
+        stmts = _clause_stmts(T, idx[0])
+        stmts = _specialise(stmts, fn["params"][0]["name"], kind, ar)
+        pseudo = {"q": fn["q"] + "#" + kind, "file": fn["file"], "line": fn["line"], "body": {"k": "block", "s": stmts}}
+        al = G.collect_aliases(pseudo)
+        al.update({k_: v_ for k_, v_ in G.collect_aliases(fn).items() if k_ not in al})
         g, cands = G.gated(pseudo, ("expr", "[%d]" % (ar - 1)), CHANGES, False, al)
         chk.ob(rid, "checkExpression|%s body|%s" % (kind, CHANGES), g is not None,
                "checkExpression: the body of %s (child %d) is not rejected when it can write" % (kind, ar - 1)
@@ -655,8 +697,19 @@ def run_c13_seeds(chk, F, rid):
             if (c.get("cls") or "") == cls:
                 sites.append((fn["q"], short(c)))
     bad = [s for s in sites if not ("get_symbol" in s[1] or "symbol" in s[1])]
-    chk.ob(rid, "seed|binders", len(sites) >= 3 and not bad,
-           "CompileTimeComputableValues::add_symbol call sites: %s" % sites, "src/typechecker.cpp")
+    # inside checkExpression the call sits in a clause whose labels are all binder kinds (however many clauses share it)
+    from ..tables import CheckExprTable
+    T = CheckExprTable(F)
+    bk = set(binder_kinds(F))
+    cur = []
+    for labels, st in T.items:
+        if labels:
+            cur = labels
+        for c in calls(st, "add_symbol"):
+            if (c.get("cls") or "") == cls and not set(cur) <= bk:
+                bad.append(("checkExpression clause %s" % cur, short(c)))
+    chk.ob(rid, "seed|binders", len(sites) >= 1 and not bad,
+           "CompileTimeComputableValues::add_symbol call sites outside the binder clauses: %s" % (bad or sites), "src/typechecker.cpp")
 
 
 # ---------------------------------------------------------------------------------------- C12
